@@ -421,6 +421,65 @@ func (w *World) registerIntrinsics() {
 		}
 		return tuple(mkLen(msg), nilIface)
 	}
+	// strings.Builder: its buffer field holds one string term
+	sbBuf := func(e *Exec, recv Value) (*Pointer, *Term) {
+		p := recv.(*Pointer)
+		if isNilPtr(p) {
+			e.panicHere("nil pointer dereference (nil *strings.Builder)")
+		}
+		fp := p.sub(1)
+		switch b := e.load(fp).(type) {
+		case *BytesVal:
+			return fp, b.s
+		case *SliceVal:
+			if b.isNil || b.n == 0 {
+				return fp, mkStr("")
+			}
+			return fp, e.bytesTerm(b)
+		}
+		return fp, mkStr("")
+	}
+	I["(*strings.Builder).WriteString"] = func(e *Exec, fn *ssa.Function, a []Value) Value {
+		fp, cur := sbBuf(e, a[0])
+		e.store(fp, &BytesVal{s: mkConcat(cur, a[1].(*Term))})
+		return tuple(mkLen(a[1].(*Term)), nilIface)
+	}
+	I["(*strings.Builder).Write"] = func(e *Exec, fn *ssa.Function, a []Value) Value {
+		fp, cur := sbBuf(e, a[0])
+		t := e.bytesTermOrEmpty(a[1])
+		e.store(fp, &BytesVal{s: mkConcat(cur, t)})
+		return tuple(mkLen(t), nilIface)
+	}
+	I["(*strings.Builder).WriteByte"] = func(e *Exec, fn *ssa.Function, a []Value) Value {
+		fp, cur := sbBuf(e, a[0])
+		e.store(fp, &BytesVal{s: mkConcat(cur, mkFromCode(e.byteToCode(a[1].(*Term))))})
+		return nilIface
+	}
+	I["(*strings.Builder).WriteRune"] = func(e *Exec, fn *ssa.Function, a []Value) Value {
+		fp, cur := sbBuf(e, a[0])
+		r, ok := a[1].(*Term).intVal()
+		if !ok {
+			e.unsupported("strings.Builder.WriteRune of a symbolic rune")
+		}
+		rs := string(rune(r))
+		e.store(fp, &BytesVal{s: mkConcat(cur, mkStr(rs))})
+		return tuple(mkInt(int64(len(rs))), nilIface)
+	}
+	I["(*strings.Builder).String"] = func(e *Exec, fn *ssa.Function, a []Value) Value {
+		_, cur := sbBuf(e, a[0])
+		return cur
+	}
+	I["(*strings.Builder).Len"] = func(e *Exec, fn *ssa.Function, a []Value) Value {
+		_, cur := sbBuf(e, a[0])
+		return mkLen(cur)
+	}
+	I["(*strings.Builder).Grow"] = func(e *Exec, fn *ssa.Function, a []Value) Value { return nil }
+	I["(*strings.Builder).Reset"] = func(e *Exec, fn *ssa.Function, a []Value) Value {
+		fp, _ := sbBuf(e, a[0])
+		e.store(fp, &BytesVal{s: mkStr("")})
+		return nil
+	}
+	I["(*strings.Builder).copyCheck"] = func(e *Exec, fn *ssa.Function, a []Value) Value { return nil }
 	// the standard streams: opaque files that swallow what is written to them
 	I["os.NewFile"] = func(e *Exec, fn *ssa.Function, a []Value) Value {
 		ft := e.errorsPkgType("os", "File")
